@@ -1779,6 +1779,118 @@ func c20r8(p *Program, r *Report) {
 				"a path from reading the CA file to a success return does not hand the bytes to AppendCertsFromPEM: a CA file without a usable certificate (e.g. an empty one) is silently accepted and the session verifies against the system roots")
 		}
 	}
+	// the pool that receives the certificates is the one the returned config verifies against: the receiver of
+	// AppendCertsFromPEM is <config>.RootCAs itself, or a local that is the same pool as <config>.RootCAs at every
+	// success return (taken from the field and not replaced since, or stored into the field afterwards)
+	for _, u := range units {
+		info := u.Pkg.TypesInfo
+		for _, c := range callsIn(u.Decl.Body) {
+			if calleeName(info, c) != "x509.(*CertPool).AppendCertsFromPEM" {
+				continue
+			}
+			rx := recvExpr(c)
+			if rx == nil {
+				continue
+			}
+			if sel, isSel := ast.Unparen(rx).(*ast.SelectorExpr); isSel && sel.Sel.Name == "RootCAs" {
+				n++
+				r.OK(c, u.Name+" adds the CA certificates to the pool of the config", exprStr(rx))
+				continue
+			}
+			id, isId := ast.Unparen(rx).(*ast.Ident)
+			if !isId {
+				continue
+			}
+			obj := info.Uses[id]
+			isRootCAs := func(e ast.Expr) bool {
+				sel, ok := ast.Unparen(e).(*ast.SelectorExpr)
+				return ok && sel.Sel.Name == "RootCAs"
+			}
+			g := p.GraphOf(u)
+			sol := Solve(g, Lattice[int]{
+				Join: func(a, b int) int {
+					if a < b {
+						return a
+					}
+					return b
+				},
+				Eq: func(a, b int) bool { return a == b },
+				Step: func(st int, step Step) int {
+					if step.Kind != StNode {
+						return st
+					}
+					as, ok := step.Node.(*ast.AssignStmt)
+					if !ok || len(as.Lhs) != len(as.Rhs) {
+						return st
+					}
+					for i, l := range as.Lhs {
+						switch {
+						case isIdentOf(info, l, obj) && isRootCAs(as.Rhs[i]):
+							st = 1
+						case isIdentOf(info, l, obj):
+							st = 0
+						case isRootCAs(l) && isIdentOf(info, as.Rhs[i], obj):
+							st = 1
+						case isRootCAs(l):
+							st = 0
+						}
+					}
+					return st
+				},
+			})
+			n++
+			okAll, exits := true, 0
+			for _, e := range g.Exits() {
+				rs, isRet := e.Node.(*ast.ReturnStmt)
+				if !isRet || rs.Pos() < c.Pos() {
+					continue
+				}
+				if len(rs.Results) > 0 && isErrorType(info.TypeOf(rs.Results[len(rs.Results)-1])) && !isNil(info, rs.Results[len(rs.Results)-1]) {
+					continue
+				}
+				exits++
+				if st, has := sol.Before(rs); !has || st != 1 {
+					// the pool is handed back to the caller, which stores it: pool, err = helper(cfg.RootCAs)
+					handedBack := false
+					for ri, res := range rs.Results {
+						if !isIdentOf(info, res, obj) {
+							continue
+						}
+						sites, good := 0, 0
+						for _, cu := range units {
+							cinfo := cu.Pkg.TypesInfo
+							ast.Inspect(cu.Decl.Body, func(y ast.Node) bool {
+								as, isA := y.(*ast.AssignStmt)
+								if !isA || len(as.Rhs) != 1 {
+									return true
+								}
+								cc, isC := ast.Unparen(as.Rhs[0]).(*ast.CallExpr)
+								if !isC {
+									return true
+								}
+								if fn := calleeOf(cinfo, cc); fn == nil || p.FuncOf(fn) != u {
+									return true
+								}
+								sites++
+								if ri < len(as.Lhs) && isRootCAs(as.Lhs[ri]) {
+									good++
+								}
+								return true
+							})
+						}
+						if sites > 0 && sites == good {
+							handedBack = true
+						}
+					}
+					if !handedBack {
+						okAll = false
+					}
+				}
+			}
+			r.Check(okAll && exits > 0, c, u.Name+" adds the CA certificates to the pool of the config", "the local pool is <config>.RootCAs at every success return",
+				"the certificates of the CA file are added to a pool that is not (on every path) the RootCAs of the config that is returned: the file is read and parsed and then not used, and the session verifies against the system roots")
+		}
+	}
 	if n == 0 {
 		r.Unresolved("no unit of setupTLSConfig both reads a file and appends certificates")
 	}
